@@ -256,12 +256,10 @@ func c13ranges(c *Ctx) {
 	}
 	classes := map[string]string{"koord-prod": "Prod", "koord-mid": "Mid", "koord-batch": "Batch", "koord-free": "Free"}
 	found := map[string]bool{}
-	for _, b := range fn.Blocks {
-		ret, ok := b.Instrs[len(b.Instrs)-1].(*ssa.Return)
-		if !ok {
-			continue
-		}
-		name, isC := constString(ret.Results[0])
+	for _, alt := range an.ReturnAlts(fn) {
+		ret := alt.Ret
+		_ = ret
+		name, isC := constString(alt.Results[0])
 		k, tracked := classes[name]
 		if !isC || !tracked {
 			continue
@@ -269,7 +267,7 @@ func c13ranges(c *Ctx) {
 		found[name] = true
 		lo, hi := false, false
 		var other []string
-		for _, g := range an.Guards(ret) {
+		for _, g := range alt.Guards {
 			bo, ok := g.Cond.(*ssa.BinOp)
 			if !ok {
 				continue
